@@ -5,7 +5,6 @@ M = [
  # ---- C11
  ("c11-per-shot-seed-const-passive", "C11", "piquasso/_simulators/passive/sampling.py", "            compute_list.append(delayed_func(seed=seed + idx))", "            compute_list.append(delayed_func(seed=seed))"),
  ("c11-per-shot-seed-dask-offset-gaussian", "C11", "piquasso/_simulators/gaussian/simulation_steps.py", "            compute_list.append(delayed_func(seed=seed + idx))", "            compute_list.append(delayed_func(seed=seed + idx + 1))"),
- ("c11-config-copy-drops-rng", "C11", "piquasso/api/config.py", "        config_copy.rng = self.rng\n", "        pass\n"),
  ("c11-samples-shuffle-global", "C11", "piquasso/api/result.py", "        r = random.Random(self._config.seed_sequence)\n        r.shuffle(_samples)", "        random.shuffle(_samples)"),
  ("c11-offset-max-fixup-removed", "C11", "src/permanent.cpp", "        if (job_idx == concurrency - 1)\n        {\n            offset_max = idx_max - 1;\n        }", "        (void)0;"),
  ("c11-laplace-offset-max-fixup-removed", "C11", "src/permanent_laplace.cpp", "        if (job_idx == concurrency - 1)\n            offset_max = idx_max - 1;", "        (void)0;"),
@@ -20,6 +19,7 @@ M = [
  ("c12-simulator-keeps-callers-config", "C12", "piquasso/api/simulator.py", "        self.config = config.copy() if config is not None else self._config_class()", "        self.config = config if config is not None else self._config_class()"),
  ("c12-pfaffian-no-copy", "C12", "piquasso/_simulators/connectors/connector.py", "        return pfaffian(self.fallback_np.array(matrix))", "        return pfaffian(matrix)"),
  ("c12-str-param-expression-again", "C12", "piquasso/api/instruction.py", "        self._params.update(self._original_unresolved_params)", "        self._params.update(self._unresolved_params)"),
+ ("c12-shallow-copy", "C12", "piquasso/core/_mixins.py", "        return copy.deepcopy(self)", "        return copy.copy(self)"),
  # ---- C03
  ("c03-shots-round-up", "C03", "piquasso/api/simulator.py", "                    int(branch.frequency * shots) if shots is not None else None", "                    round(branch.frequency * shots + 0.5) if shots is not None else None"),
  ("c03-frequency-not-multiplied", "C03", "piquasso/api/simulator.py", "                subbranch.frequency *= branch.frequency", "                pass"),
@@ -32,6 +32,8 @@ M = [
  ("c13-preparation-order-unchecked", "C13", "piquasso/api/simulator.py", "        self._validate_preparations_at_beginning(instructions)\n", "        pass\n"),
  ("c13-mid-circuit-whitelist-ignored", "C13", "piquasso/api/simulator.py", "                and index != len(instructions) - 1\n                and not isinstance(", "                and index != len(instructions) - 1\n                and False\n                and not isinstance("),
  ("c13-projection-cutoff-off-by-one", "C13", "piquasso/_simulators/fock/pure/simulation_steps/utils.py", "    config_copy.cutoff -= sum(subspace_basis)", "    config_copy.cutoff -= sum(subspace_basis) + (1 if sum(subspace_basis) == config_copy.cutoff - 2 else 0)"),
+ ("c13-initial-state-width-unchecked", "C13", "piquasso/api/simulator.py", "        if initial_state.d != d:", "        if False:"),
+ ("c13-shots-bool-or-float-accepted", "C13", "piquasso/api/simulator.py", "        is_shots_positive_integer = isinstance(shots, int) and shots > 0", "        is_shots_positive_integer = isinstance(shots, (int, float)) and shots > 0"),
  ("c13-upfront-validation-dropped", "C13", "piquasso/api/simulator.py", "        self._validate_execution(instructions, shots, d)\n", "        pass\n"),
 ]
 os.makedirs("/verif/mutants", exist_ok=True)
